@@ -110,7 +110,7 @@ def confirm(args):
         checks = args.checks.split(",") if args.checks else [args.breaks]
         meta["checks"] = run_checks(wt, checks, args.tier)
         # refreshed diff against current HEAD
-        diff = sh(["git", "-C", str(wt), "diff", "--", "src"]).stdout
+        diff = sh(["git", "-C", str(wt), "diff", "HEAD", "--", "src"]).stdout
     dst = SEEDED / args.name
     dst.mkdir(parents=True, exist_ok=True)
     (dst / "patch.diff").write_text(diff)
